@@ -1039,7 +1039,21 @@ def r03_1(cx):
     ids = [(sb, val) for sb, ssi, tt, val, s in b.field_stores() if tt == ('f', st, 'id')]
     okid = len(ids) >= 3 and all(is_agg(v, r'Option$', 'Some') and is_var(v[3]['0'], 'sid') for _, v in ids)
     exit_ids = [sb for sb, v in ids if sb not in d.loop and sb in b.reach(d.header)]
-    cx.report('R03.1', b, 'id-saved', okid and bool(exit_ids), 'state.id = Some(sid) is saved on special states and at the end of the span' if okid and exit_ids else 'state.id is not saved as Some(sid) on every suspension point')
+    # after a transition, no return may happen before the new state was saved (a later call resumes from state.id)
+    rets_ok = [bi for bi, si, pl, st0 in b.stores() if si != 'term' and pl['l'] == 0 and not pl['pr'] and is_agg(b.rvalue_term(st0['r'], 0, bi), r'Result$', 'Ok')]
+    r = b.reach_after(d.nsb, cut_blocks=[sb for sb, v in ids] + [d.nsb]) if d.nsb is not None else set()
+    idblocks = {sb for sb, v in ids}
+    stale = []
+    for x in sorted(set(rets_ok) & r):
+        if x in idblocks:
+            # same block: the save must come before the return value is set
+            order = [('id' if (st0['k'] == 'assign' and st0['p']['pr'] and b.store_term(st0['p']) == ('f', st, 'id')) else ('ret' if (st0['k'] == 'assign' and st0['p']['l'] == 0 and not st0['p']['pr']) else None)) for st0 in b.blocks[x]['stmts']]
+            order = [o for o in order if o]
+            if order and order[0] == 'id':
+                continue
+        stale.append(x)
+    cx.report('R03.1', b, 'id-saved', okid and bool(exit_ids) and not stale, 'state.id = Some(sid) is saved before every return that follows a transition (special states, prefilter verdict, end of span)' if okid and exit_ids and not stale else
+              'the stepper can return after a transition without saving the new state in state.id (a later call resumes from a stale state): return at line(s) %s' % [line_of(b, x) for x in stale])
     # outer: state.mat cleared first
     o = cx.body(OVER)
     first = [tt for bi, si, tt, val, s in o.field_stores() if bi == 0 and si == 0]
